@@ -36,7 +36,7 @@ ALL_KEYS = ["t1.content", "t1.state", "t1.perf", "t1.caps", "t2.view", "t2.k", "
 KEY_HAS_CURRENT: List[str] = list(ALL_KEYS)   # after the three key fixes (known_findings.json: C05-*)
 
 CAUSE_TO_KEY = {  # (cache, differing dependency) -> key component whose absence explains it
-    ("t1", "gw"): "t1.content", ("t1", "gn"): "t1.content", ("t1", "cap"): "t1.perf", ("t1", "relax"): "t1.caps", ("t1", "ord"): "t1.state",
+    ("t1", "gw"): "t1.content", ("t1", "gn"): "t1.content", ("t1", "gd"): "t1.content", ("t1", "cap"): "t1.perf", ("t1", "relax"): "t1.caps", ("t1", "ord"): "t1.state",
     ("t2", "tod"): "t2.day", ("tl", "tod"): "tl.day",
     ("t2", "view"): "t2.view", ("t2", "k"): "t2.k", ("t2", "day"): "t2.day", ("t2", "graph"): "t2.graph", ("t2", "mem"): "t2.index",
     ("tl", "view"): "tl.view", ("tl", "k"): "tl.k", ("tl", "day"): "tl.day", ("tl", "graph"): "tl.graph", ("tl", "mem"): "tl.mem",
@@ -54,7 +54,8 @@ LATE = "T23:30:00Z"             # time of day 1: same calendar day, 23 h later (
 
 def _graphs():
     return {"g:surface": {
-        "nodes": [("n:apple", "apple", []), ("n:banana", "banana", []), ("n:cherry", "cherry", [])],
+        # n:p1 / n:p2: isolated nodes; "story" occurs in a memory text (residual nudges), never in a query, "zebra" nowhere
+        "nodes": [("n:apple", "apple", []), ("n:banana", "banana", []), ("n:cherry", "cherry", []), ("n:p1", "story", []), ("n:p2", "zebra", [])],
         "edges": [("e1", "n:apple", "n:banana", 0.9, "supports"), ("e2", "n:banana", "n:cherry", 0.9, "supports"),
                   ("e3", "n:cherry", "n:apple", 0.5, "associates")]},
         # a second active graph that matches the same texts: per-graph cache entries are combined per turn
@@ -124,6 +125,18 @@ class World:
             g = st.get_graph("g:surface")
             w = 0.1 if g.edges["e1"].weight == 0.9 else 0.9
             st.upsert_edges("g:surface", [Edge(id="e1", src="n:apple", dst="n:banana", weight=w, rel="supports")])
+        elif name == "edit_dst":
+            # the same edge (id, source, weight, relation) pointed at another node and back
+            st = self.states[s]["store"]
+            g = st.get_graph("g:surface")
+            dst = "n:cherry" if g.edges["e1"].dst == "n:banana" else "n:banana"
+            st.upsert_edges("g:surface", [Edge(id="e1", src="n:apple", dst=dst, weight=g.edges["e1"].weight, rel="supports")])
+        elif name == "swap_labels":
+            # two nodes swap their labels: the label set stays, the node that carries "story" changes
+            st = self.states[s]["store"]
+            g = st.get_graph("g:surface")
+            lb, lc = g.nodes["n:p1"].label, g.nodes["n:p2"].label
+            st.upsert_nodes("g:surface", [Node(id="n:p1", label=lc), Node(id="n:p2", label=lb)])
         elif name == "add_node":
             st = self.states[s]["store"]
             st.upsert_nodes("g:surface", [Node(id="n:bread", label="bread")])
@@ -279,7 +292,7 @@ def check(run) -> None:
             "MaxLen": 5 if q else 6, "Episodes": ["eA", "eB"], "InitEps": []}
     # the environment / configuration alphabet is split into two runs to bound the state space
     ACTS_A = ["edit_weight", "add_node", "add_episode", "clear_index", "toggle_kill", "set_k", "set_scope", "next_day", "toggle_perf"]
-    ACTS_B = ["edit_weight", "toggle_kill", "next_hour", "set_relax", "toggle_perf"]
+    ACTS_B = ["edit_weight", "toggle_kill", "next_hour", "set_relax", "toggle_perf", "edit_dst", "swap_labels"]
     ACTS_ALL = sorted(set(ACTS_A) | set(ACTS_B))
     # 1) the full key set satisfies HitEqualsFresh (design)
     for nm, acts in (("A", ACTS_A), ("B", ACTS_B)):
